@@ -91,10 +91,31 @@ Definition conn_lost (c : nat) (w : world) : world :=
   if c_disc (get_conn c w) then peering_connection_closed (Some c) w
   else F_connection_failed w.
 
+(** the proposed value 1 or 2 is refused whatever the own value is; so is a negotiated 1 or 2 *)
+Definition hold_refused (proposed negotiated : N) : bool :=
+  (negb (proposed =? 0) && (proposed <? 3)) || (negb (negotiated =? 0) && (negotiated <? 3)).
+
+Lemma hold_refused_false p m : (p = 0 \/ 3 <= p) -> (m = 0 \/ 3 <= m) -> hold_refused p m = false.
+Proof.
+  intros Hp Hm. unfold hold_refused. apply orb_false_iff. split; apply andb_false_iff.
+  - destruct Hp as [->|Hp]; [left; reflexivity|right; apply N.ltb_ge; exact Hp].
+  - destruct Hm as [->|Hm]; [left; reflexivity|right; apply N.ltb_ge; exact Hm].
+Qed.
+Lemma hold_refused_true_negotiated p m : m <> 0 -> m < 3 -> hold_refused p m = true.
+Proof.
+  intros H1 H2. unfold hold_refused. apply orb_true_iff. right. apply andb_true_iff.
+  split; [apply negb_true_iff, N.eqb_neq; exact H1|apply N.ltb_lt; exact H2].
+Qed.
+Lemma hold_refused_true_proposed p m : p <> 0 -> p < 3 -> hold_refused p m = true.
+Proof.
+  intros H1 H2. unfold hold_refused. apply orb_true_iff. left. apply andb_true_iff.
+  split; [apply negb_true_iff, N.eqb_neq; exact H1|apply N.ltb_lt; exact H2].
+Qed.
+
 (** BGP.negotiate_hold_time *)
 Definition negotiate_hold_time (hold : N) (w : world) : world :=
   let w := set_w_hold (N.min (w_hold w) hold) w in
-  let w := if negb (w_hold w =? 0) && (w_hold w <? 3)
+  let w := if hold_refused hold (w_hold w)
            then F_open_message_error c_ERR_MSG_OPEN_UNACCPT_HOLD_TIME [] w else w in
   set_w_ka3 (w_hold w) w.
 
